@@ -301,6 +301,7 @@ func (x *exec) store(s *State, l *Loc, v *Val, t types.Type) {
 		h := x.h.get(s, name, sort)
 		ref := App("s-ref", l.Slice)
 		x.h.set(s, name, sort, Sto(h, ref, Sto(Sel(h, ref), x.c.IAdd(App("s-off", l.Slice), l.Idx), x.term(v))))
+		x.clearCsprng(s, ref)
 	case LSub:
 		si := x.c.structOf(l.T)
 		pv := x.term(x.load(s, l.Parent, l.T))
